@@ -46,6 +46,14 @@ CHECKS = {
    technique="explicit enumeration of all usage histories (evaluate / build bath / read through bath / run Tempo / set public attribute / switch object) up to depth 4/5 on real shared objects with fresh-object replay as oracle, plus exhaustive (API array argument x memory layout) product and all orders of computations on shared objects",
    text="For PowerLawSD, CustomSD and CustomCorrelations every history over a 7-operation menu up to depth 4 (quick) / 5 (thorough) that ends in an observation is executed on real objects; each observation must equal the one made on freshly constructed objects with the current values (for a bath built earlier: the values at its construction). 19 array arguments of the public API are each passed in up to 7 memory layouts (C, Fortran, transposed view, strided view, read-only, real dtype, nested list): identical results, caller buffer bitwise unchanged, no exception. Shared system/bath/parameter/process-tensor objects are reused by 5 computations in all orders (quick: 36 orders) and compared with fresh equal objects. Two aliasing/memoisation defects are recorded as known findings.",
    note="Public attributes exercised: alpha / j_function / correlation_function and temperature. Tempo comparisons 1e-6 at epsrel 1e-9; correlation values 1e-9."),
+ "C11": dict(category="exploration", design="4/C11",
+   technique="exhaustive product of small alphabets (coupling multisets x commuting H incl. non-diagonal degenerate blocks x spectral density x T x alpha x n_steps x epsrel) through the real GibbsTempo, compared with the exact reduced thermal state from an independent reorganisation-energy quadrature; zero/weak coupling family against expm(-H/T)/Z; compute/get histories",
+   text="Five families, each a full product (quick 7272 / thorough 32544 evaluations): commuting models against the exact reduced thermal state p_i ~ exp(-(E_i - lambda o_i^2)/T) with lambda from an own quadrature (independent of n_steps), zero coupling against expm(-H/T)/Z for real and complex Hermitian H in d=2..4, a weak-coupling chain alpha = 1e-6..1e-2 (deviation bounded by C*coupling and increasing), non-commuting finite coupling with a physicality monitor (trace, Hermiticity, positivity) on every state, and all histories compute^k / get_state / gibbs_tempo_compute (identical states). Bounded-exhaustive over the alphabet.",
+   note="Tolerance 2e-7 + 100*epsrel (library quadrature floor 2^-26), measured head-room >= 40x; oracle independent of oqupy (own J formulas, own quadrature, scipy expm)."),
+ "C15": dict(category="exploration", design="4/C15",
+   technique="exhaustive product of shifts x producers x systems x subdivision settings x control / correlation time specifications; metamorphic oracle: the run shifted by tau (start time and every explicit time dependence) must reproduce every state, field and correlation and shift every reported time by exactly tau",
+   text="Every member of the product tau in {0.37, -1.3, 2.0, 1000.1 (+2 thorough)} x {Tempo, MeanFieldTempo, PtTempo+compute_dynamics, compute_dynamics, compute_dynamics_with_field, compute_correlations} x {H(t), H(t)+gamma(t)A(t)} x subdiv_limit {None, default} x 6 float control sets / 6 float correlation-time specifications x environments {none, exact ancilla, PT-TEMPO} is run twice (base and shifted); values must agree (1e-9 with a shared process tensor, 20*epsrel*n otherwise), times must be shifted within 4 ulp. For every time-dependent ingredient a vacuity partner (everything shifted but that ingredient) measures the effect a missing start_time would have (>= 1e-3).",
+   note="Metamorphic: does not establish absolute correctness of the dynamics (C01-C03 do). End times are given off-grid so that the check does not depend on the C13 rule."),
 }
 NOT_YET = "check not built yet in this round (see DESIGN.md sec. 8 build order)"
 
